@@ -509,3 +509,93 @@ Example text_nontrivial :
   process_batches utf8_trim cfg_default 2 [97; 10; 98; 10; 99; 10] = ([[[97]; [98]]; [[99]]], 3) /\
   count_lines utf8_trim (cfg_of_bits 1) [10; 97; 10; 10] = 1.
 Proof. vm_compute. repeat split; reflexivity. Qed.
+
+(* ======================= extension: unicode.rs ======================= *)
+From ZV.C20 Require Import ModelUtf8 ProofsUtf8 ProofsUtf8Enc.
+Open Scope N_scope.
+
+(* on every valid UTF-8 text: next_char from the start yields exactly the characters of chars(), each once, in order, and stops
+   at the end; prev_char from the end yields them in reverse and stops at 0 (the backward scan over continuation bytes lands
+   on every character start); the count is the number of characters *)
+Theorem utf8_walks :
+  forall s cs, chars s = Some cs ->
+    walk_fwd (S (length s)) s {| u_pos := O; u_cur := None |} = (map fst cs, {| u_pos := length s; u_cur := None |}) /\
+    (forall cur, walk_bwd (S (length s)) s {| u_pos := length s; u_cur := cur |} =
+                 (rev (map fst cs), {| u_pos := O; u_cur := None |})) /\
+    validate_count s = Some (nlen cs) /\ (length cs <= length s)%nat.
+Proof. exact utf8_walks_proof. Qed.
+Check utf8_walks :
+  forall s cs, chars s = Some cs ->
+    walk_fwd (S (length s)) s {| u_pos := O; u_cur := None |} = (map fst cs, {| u_pos := length s; u_cur := None |}) /\
+    (forall cur, walk_bwd (S (length s)) s {| u_pos := length s; u_cur := cur |} =
+                 (rev (map fst cs), {| u_pos := O; u_cur := None |})) /\
+    validate_count s = Some (nlen cs) /\ (length cs <= length s)%nat.
+Print Assumptions utf8_walks.
+
+(* every list of Unicode scalar values (1- to 4-byte forms, no surrogates): its encoding is accepted, counted, and enumerated
+   exactly, forward and backward *)
+Theorem utf8_roundtrip :
+  forall cs, forallb is_scalar cs = true ->
+    let s := encode_all cs in
+    chars s = Some (enc_chars cs) /\ validate_count s = Some (nlen cs) /\
+    fst (walk_fwd (S (length s)) s {| u_pos := O; u_cur := None |}) = cs /\
+    (forall cur, fst (walk_bwd (S (length s)) s {| u_pos := length s; u_cur := cur |}) = rev cs).
+Proof. exact utf8_roundtrip_proof. Qed.
+Check utf8_roundtrip :
+  forall cs, forallb is_scalar cs = true ->
+    let s := encode_all cs in
+    chars s = Some (enc_chars cs) /\ validate_count s = Some (nlen cs) /\
+    fst (walk_fwd (S (length s)) s {| u_pos := O; u_cur := None |}) = cs /\
+    (forall cur, fst (walk_bwd (S (length s)) s {| u_pos := length s; u_cur := cur |}) = rev cs).
+Print Assumptions utf8_roundtrip.
+
+Example utf8_nontrivial :
+  forallb is_scalar [97; 233; 8364; 128512; 55295; 57344; 1114111; 0; 127; 128; 2047; 2048; 65535; 65536] = true /\
+  encode_all [97; 233; 8364; 128512] = [97; 195; 169; 226; 130; 172; 240; 159; 152; 128] /\
+  chars [237; 160; 128] = None /\ chars [192; 128] = None /\ chars [244; 144; 128; 128] = None /\ chars [226; 130] = None /\
+  u8_run [97; 195; 169] {| u_pos := O; u_cur := None |} [0; 0; 0; 1; 1; 1; 0; 2] =
+    [(Some 97, Some 97, 1); (Some 233, Some 233, 3); (None, None, 3); (Some 233, Some 233, 1);
+     (Some 97, Some 97, 0); (None, None, 0); (Some 97, Some 97, 1); (None, None, 0)].
+Proof. vm_compute. repeat split; reflexivity. Qed.
+
+(* ======================= extension: StreamingLexIterator ======================= *)
+From ZV.C20 Require Import ModelStream ProofsStream.
+Open Scope N_scope.
+
+(* StreamingLexIterator: next() until it answers false delivers through current() exactly the lines of the stream (the
+   same lines as LineProcessor's default configuration: an empty line is a string, never None), then is_at_end and current() = None *)
+Theorem streaming_enumerates :
+  forall s,
+    let '(cs, e) := sl_walk (S (length s)) (sl_new s) in
+    cs = map Some (lines s) /\ sl_fin e = true /\ sl_current e = None.
+Proof. exact streaming_enumerates_proof. Qed.
+Check streaming_enumerates :
+  forall s,
+    let '(cs, e) := sl_walk (S (length s)) (sl_new s) in
+    cs = map Some (lines s) /\ sl_fin e = true /\ sl_current e = None.
+Print Assumptions streaming_enumerates.
+
+(* a list of strings written one per line with any mix of "\n" / "\r\n" (empty strings, duplicates, last terminator
+   optional) is enumerated exactly: nothing skipped, nothing repeated *)
+Theorem streaming_unlines :
+  forall ls tail,
+    Forall (fun p => contains_byte 10 (fst p) = false /\ ends_with_byte (fst p) 13 = false /\
+                     (snd p = [10] \/ snd p = [13; 10])) ls ->
+    contains_byte 10 tail = false ->
+    fst (sl_walk (S (length (unlines ls ++ tail))) (sl_new (unlines ls ++ tail))) =
+    map Some (map fst ls ++ (if null tail then [] else [tail])).
+Proof. exact streaming_unlines_proof. Qed.
+Check streaming_unlines :
+  forall ls tail,
+    Forall (fun p => contains_byte 10 (fst p) = false /\ ends_with_byte (fst p) 13 = false /\
+                     (snd p = [10] \/ snd p = [13; 10])) ls ->
+    contains_byte 10 tail = false ->
+    fst (sl_walk (S (length (unlines ls ++ tail))) (sl_new (unlines ls ++ tail))) =
+    map Some (map fst ls ++ (if null tail then [] else [tail])).
+Print Assumptions streaming_unlines.
+
+Example streaming_nontrivial :
+  sl_run (sl_new [10; 97; 13; 10; 97; 10; 98]) [0; 1; 0; 0; 4; 0; 0; 0] =
+    [(1, Some [], false); (2, Some [], false); (1, Some [97], false); (1, Some [97], false); (2, Some [97], false);
+     (1, Some [98], false); (0, None, true); (0, None, true)].
+Proof. vm_compute. reflexivity. Qed.
